@@ -498,7 +498,20 @@ def sysv(prog, rep):
            ("line %d: %s treats a valid set id as no handle (`%s`): for the set with that id the owner's free skips IPC_RMID, or the create path misjudges its result, and the "
             "next opener attaches to the stale counter" % (line(badid[0][1]), badid[0][0].name, badid[0][2]) if badid else "no validity test of sem_hdl found"),
            badid[0][1] if badid else u.fn("pp_semaphore_clean_handle", raw=True).loc[0])
-    rep.floor("C06.5", 5 + 1)
+    # the key file tells the creator from the joiner: p_ipc_unix_create_key_file answers 0 only when *this* call made the file, so
+    # its open is exclusive (O_CREAT | O_EXCL) and an EEXIST failure is the answer 1.  Without O_EXCL every opener believes it made
+    # the file, a non-owner's free unlinks it, and the next opener derives a different ftok key - a second counter under one name
+    kfu = prog.unit("pipc.c")
+    kf = kfu.functions.get("p_ipc_unix_create_key_file")
+    opens = [c for (b, i, c) in kf.calls() if c.get("callee") in ("open", "open64")] if kf else []
+    fl_ = guards.eval_const(opens[0]["args"][1], guards.EMPTY) if len(opens) == 1 and len(opens[0]["args"]) > 1 else None
+    okkf = fl_ is not None and (fl_ & 0o100) and (fl_ & 0o200)
+    rep.ob("C06.5", kf if kf else u.fn("pp_semaphore_clean_handle", raw=True), "keyfile:exclusive", bool(okkf),
+           "the key file is created exclusively (O_CREAT | O_EXCL): result 0 means this call made it" if okkf else
+           ("line %d: the key file is opened with flags %s: without O_CREAT | O_EXCL the call reports `created` for a file that existed, the joiner takes itself for the owner "
+            "of the key file and removes it on free" % (line(opens[0]), oct(fl_) if fl_ is not None else "that are not constant") if opens else "the open of the key file was not found"),
+           opens[0] if opens else (kf.loc[0] if kf else 0))
+    rep.floor("C06.5", 5 + 2)
 
 
 # objects are zero-filled at birth: the functions of these units rely on it for every field their constructors do not store
@@ -524,6 +537,8 @@ def run(prog, rep):
 RENAME_LOCALS = ['src/psemaphore-posix.c']
 
 SELFTEST = [
+    dict(id="key-file-not-exclusive", file="src/pipc.c", expect="C06.5",
+         old="open (file_name, O_CREAT | O_EXCL | O_RDONLY, 0640)", new="open (file_name, O_CREAT | O_RDONLY, 0640)"),
     dict(id="new-forgets-mode", file="src/psemaphore-posix.c", expect="C06.4",
          old="\tret->init_val = init_val;\n\tret->mode = mode;\n", new="\tret->init_val = init_val;\n"),
     dict(id="name-buffer-without-terminator", file="src/psemaphore-posix.c", expect="C06.4",
